@@ -169,7 +169,7 @@ func runC02(c *core.Ctx) {
 	const thm = "C02_* (props/C02.v); model ops load/val"
 	c.ReplayKnown()
 	nSchemas, per := 150, 30
-	sizes := []int{4, 8, 12, 16}
+	sizes := []int{4, 8, 12, 16, 20, 24}
 	if !c.Quick {
 		nSchemas, per = 300, 40
 		sizes = []int{4, 8, 12, 16, 20, 24, 28, 32}
